@@ -453,6 +453,9 @@ func (cl *Client) SendRawTransaction(tx *wire.MsgTx, allowHighFees bool) (*chain
 	var err error
 	if cl.SendAnswer != nil {
 		err = cl.SendAnswer(tx)
+	} else if cl.C.InMempool(h) {
+		// what a node answers to a transaction it already holds
+		err = chain.ErrTxAlreadyInMempool
 	}
 	cl.logCall("SendRawTransaction", h, err)
 	if err != nil {
